@@ -123,6 +123,32 @@ func c19Parity(c *Ctx) {
 	for _, g := range []cfg{{1, 1, 0}, {3, 7, 0}, {8, 16, 0}, {17, 9, 0}, {2, 8, 1}, {10, 7, 1}, {0, 8, 0}, {0, 8, 2}, {5, 3, -1}} {
 		grid = append(grid, g)
 	}
+	if c.Tier == "thorough" {
+		// every fragment count 1..24 (powers of two — where the matrix uses the modulus m+1 — up to 16; 28 and 31) with
+		// three fragment sizes and two further redundancy levels
+		seen := map[cfg]bool{}
+		for _, g := range grid {
+			seen[g] = true
+		}
+		var ws []int
+		for w := 1; w <= 24; w++ {
+			ws = append(ws, w)
+		}
+		ws = append(ws, 28, 31)
+		for _, w := range ws {
+			for _, fs := range []int{1, 8, 17} {
+				for _, red := range []int{1, 9} {
+					if w*fs*red > 1200 {
+						continue // beyond the interpreter's node budget (XOR chains over hundreds of symbolic bytes)
+					}
+					if g := (cfg{w, fs, red}); !seen[g] {
+						seen[g] = true
+						grid = append(grid, g)
+					}
+				}
+			}
+		}
+	}
 	for _, g := range grid {
 		{
 			w, fs, red := g.w, g.fs, g.red
